@@ -57,10 +57,15 @@ def fault_matrix():
     for who in ('ep', 'rn'):
         for d in (False, True):
             out.append({'f': 'takes-next', 'who': who, 'default': d})
+            out.append({'f': 'takes-next', 'who': who, 'default': d, 'pk': 'kw'})      # ... as a keyword-only parameter
     for w in WHERE:
         out.append({'f': 'context-required', 'who': 'mw-request', 'where': w})
         out.append({'f': 'context-required', 'who': 'mw-endpoint', 'where': w})
     out.append({'f': 'context-required', 'who': 'ep'})
+    out.append({'f': 'context-required', 'who': 'ep', 'pk': 'kw'})
+    for w in WHERE:
+        out.append({'f': 'context-required', 'who': 'mw-request', 'where': w, 'pk': 'kw'})
+        out.append({'f': 'context-required', 'who': 'mw-endpoint', 'where': w, 'pk': 'kw'})
     # the same misuse behind an outer function of the same phase that merely *accepts* context with a default
     for w in WHERE:
         for who in ('mw-request', 'mw-endpoint', 'ep'):
@@ -68,6 +73,7 @@ def fault_matrix():
     for who in ('ep', 'rn'):
         for w in WHERE:
             out.append({'f': 'takes-next-after-optional', 'who': who, 'where': w})
+            out.append({'f': 'takes-next-after-optional', 'who': who, 'where': w, 'pk': 'kw'})
     return out
 
 
@@ -177,7 +183,7 @@ def apply_fault(base, fault, bare=False):
         if who == 'rn' and cfg['route'].get('rn') is None:
             cfg['route']['rn'] = [['context', 'pos', False]]
             cfg['route']['ep_returns'] = 'context'
-        cfg['route'][who] = list(cfg['route'][who]) + [['next', 'pos', fault['default']]]
+        cfg['route'][who] = list(cfg['route'][who]) + [['next', fault.get('pk', 'pos'), fault['default']]]
     elif f == 'context-required-after-optional':
         who = fault['who']
         phase = 'request' if who == 'mw-request' else 'endpoint'
@@ -200,15 +206,15 @@ def apply_fault(base, fault, bare=False):
         if who == 'rn' and cfg['route'].get('rn') is None:
             cfg['route']['rn'] = [['context', 'pos', False]]
             cfg['route']['ep_returns'] = 'context'
-        cfg['route'][who] = list(cfg['route'][who]) + [['next', 'pos', False]]
+        cfg['route'][who] = list(cfg['route'][who]) + [['next', fault.get('pk', 'pos'), False]]
     elif f == 'context-required':
         who = fault['who']
         if who == 'ep':
-            cfg['route']['ep'] = list(cfg['route']['ep']) + [['context', 'pos', False]]
+            cfg['route']['ep'] = list(cfg['route']['ep']) + [['context', fault.get('pk', 'pos'), False]]
         else:
             c = _container(cfg, fault['where'])
             mw = _fresh_mw(20)
-            mw['request' if who == 'mw-request' else 'endpoint'] = [['context', 'pos', False]]
+            mw['request' if who == 'mw-request' else 'endpoint'] = [['context', fault.get('pk', 'pos'), False]]
             c['mws'] = list(c.get('mws') or []) + [mw]
     return cfg
 
